@@ -126,13 +126,44 @@ def directed_twins(seed):
     finally:
         p.cleanup()
 
+
+def directed_modes(seed):
+    """a project built in release AND develop mode: cleaning one mode must not touch the up-to-date results of the other"""
+    rnd = random.Random(seed)
+    p = P.Project(prefix='c16m-')
+    try:
+        model = P.gen_model(rnd); log = []
+        p.write(model)
+        rc, out = p.bob('build', 'r0'); log.append('bob build (release)')
+        if rc != 0: return None, log + ['(project does not build)']
+        rc, out = p.bob('dev', 'r0'); log.append('bob dev (develop)')
+        if rc != 0: return None, log + ['(project does not build)']
+        def dirs(top):
+            out = set()
+            for dp, ds, fs in os.walk(os.path.join(p.dir, top)):
+                if os.path.basename(dp) == 'workspace': out.add(os.path.relpath(dp, p.dir)); ds[:] = []
+            return out
+        for mode_args, other_top, other_cmd in ((['clean'], 'work', ['build', 'r0']), (['clean', '--release'], 'dev', ['dev', 'r0']), (['clean', '-s'], 'work', ['build', 'r0'])):
+            before = dirs(other_top)
+            rc, out = p.bob(*mode_args); log.append('bob ' + ' '.join(mode_args))
+            gone = sorted(before - dirs(other_top))
+            if gone: return {'kind': 'clean-deleted-directory-in-use', 'deleted': gone[:6], 'what': 'cleaning one mode removed up-to-date workspaces of the other mode', 'history': log}, log
+            rc2, out2 = p.bob(*other_cmd)
+            ex = [e for e in H.executed_steps(out2) if e[0] != 'CHECKOUT']
+            if ex: return {'kind': 'clean-lost-up-to-date-result', 'reexecuted': ex[:5], 'history': log}, log
+        return None, log
+    except Exception as ex:
+        return None, ['harness problem: %r' % (ex,)]
+    finally:
+        p.cleanup()
+
 def replay(rep):
     seed = int(os.environ.get('VERIF_SEED', '0') or 0)
     thorough = os.environ.get('VERIF_TIER') == 'thorough'
     n = 32 if thorough else 10; steps = 4 if thorough else 3
     tried = 0; distinct = set(); samples = []; problems = 0
     with cf.ThreadPoolExecutor(max_workers=8) as ex:
-        futs = [ex.submit(directed, seed), ex.submit(directed_twins, seed)] + [ex.submit(one_history, seed * 1000 + i, steps) for i in range(n)]
+        futs = [ex.submit(directed, seed), ex.submit(directed_twins, seed), ex.submit(directed_modes, seed), ex.submit(directed_modes, seed + 77)] + [ex.submit(one_history, seed * 1000 + i, steps) for i in range(n)]
         for f in cf.as_completed(futs):
             w, log = f.result(); tried += 1
             if log and str(log[-1]).startswith('harness problem'): problems += 1; continue
@@ -141,5 +172,5 @@ def replay(rep):
             if w is not None: return {'reproduced': True, 'tried': tried, 'witness': w}
     if problems > tried // 2: return {'reproduced': None, 'detail': 'harness problems in %d of %d cases' % (problems, tried)}
     return {'reproduced': False, 'tried': tried, 'distinct': len(distinct), 'samples': samples,
-            'bound': '2 directed histories (variants, identical twin recipes) + %d generated projects with %d edits each, bob clean after 60%% of the builds' % (n, steps),
+            'bound': '4 directed histories (variants, identical twin recipes, 2 x release+develop mode clean) + %d generated projects with %d edits each, bob clean after 60%% of the builds' % (n, steps),
             'detail': 'directory table injective and stable; clean kept every used directory and removed the rest'}
